@@ -364,11 +364,11 @@ func init() {
 	Register(&Prop{
 		ID:    "C12",
 		Title: "Results are plain self-contained data and evaluation is deterministic",
-		Rule: "rapid draws a document and (3/4) one of 41 expression forms (columns, literals of every kind, arithmetic, unary, comparisons, IN, BETWEEN, LIKE, " +
+		Rule: "rapid draws a document and (2/3) one of 55 expression forms (columns, literals of every kind, arithmetic, unary, comparisons, IN, BETWEEN, LIKE, " +
 			"IS, NOT, AND/OR, CASE with and without ELSE, built-in and user function calls, nested calls, subqueries, ASYNC / ONCE / SPIN / SPINASYNC " +
-			"calls, SETVAR/GETVAR, FUSE, CONSTANT) placed in one of 20 positions (select item aliased/unaliased, function argument, array element, " +
+			"calls, SETVAR/GETVAR, FUSE, CONSTANT, 14 built-ins with NULL / missing arguments) placed in one of 20 positions (select item aliased/unaliased, function argument, array element, " +
 			"CASE branch/else/condition, IN list, WHERE, subquery select list, grouped select list, HAVING, joined select list, CTE and derived-table " +
-			"select lists, ORDER BY key, DISTINCT item, UNION branch, star plus item, select item of a multi-dimensional FROM) or (1/4) one of the 40 wide constructs. Oracle on every " +
+			"select lists, ORDER BY key, DISTINCT item, UNION branch, star plus item, select item of a multi-dimensional FROM) or (1/4) one of the 47 wide constructs, or (1/10) the form mixed-kinds: GROUP BY / DISTINCT / IN-subquery / JOIN / HASH_JOIN / UNION / correlated equality over a column whose values mix kinds and Go types (text vs number, int vs float64 vs float32, -0, 1e6), re-executed 24 times. Oracle on every " +
 			"successful result: reflective walk (only maps with string keys, slices, strings, Go numeric kinds, bools, nil; no type declared by " +
 			"the library, no pointer/func/struct, no key `<-`, no cycle, finite numbers), json.Marshal succeeds, and two re-executions on fresh equal " +
 			"inputs return the identical sequence (multiset when GROUP BY / joins / UNION leave the order open). Non-trivial: >=1 output row and a " +
